@@ -99,7 +99,7 @@ Definition ready (s : state) : bool := c_init (s_core s) && c_att (s_core s).
 (* the line printed by the harness after every step *)
 Definition observe (s : state) : list N :=
   let c := s_core s in let b := fun (x : bool) => if x then 1 else 0 in
-  [ b (c_init c); b (c_att c); b (c_att c) + b (a_extra (s_amb s)); c_sec c; c_lab c; c_rel c; b (a_hlog (s_amb s)); b (a_elog (s_amb s)); c_vregs c; c_ja c ].
+  [ b (c_init c); b (c_att c); b (c_att c) + b (a_extra (s_amb s)); c_sec c; c_lab c; c_rel c; b (a_hlog (s_amb s)); b (a_elog (s_amb s)); c_vregs c; c_ja c; b (c_pending c) ].
 
 (* all intermediate observations of a script *)
 Fixpoint trace (h : list step) (s : state) : list (list N) :=
